@@ -84,13 +84,17 @@ def r2(ctx, rep, ci):
                 if ev.kind != "stmt" or not isinstance(ev.node, ast.Assign):
                     continue
                 v = ev.node.value
-                uses_partial = any(isinstance(x, ast.Attribute) and x.attr == "_partial_data" and isinstance(x.ctx, ast.Load) for x in ast.walk(v))
-                if not uses_partial:
-                    continue
-                njoin += 1
+                if isinstance(v, (ast.Attribute, ast.Name)) and isinstance(ev.node.targets[0], ast.Name):
+                    continue          # a local alias of the stored fragment: a read, not the join
                 if rp is None:
                     rp = Replay(prog, cb, p)
                 sym = rp.sym_at(i)
+                pd0 = sym.lin(ast.parse("self._partial_data", mode="eval").body)
+                uses_partial = any(isinstance(x, ast.Attribute) and x.attr == "_partial_data" and isinstance(x.ctx, ast.Load) for x in ast.walk(v)) \
+                    or any(isinstance(x, ast.Name) and isinstance(x.ctx, ast.Load) and sym.lin(x) == pd0 and not pd0.is_const() for x in ast.walk(v))
+                if not uses_partial:
+                    continue
+                njoin += 1
                 # value: <stored fragment> + <the bytes just received>, in this order (symbolic values, so the join may sit in a helper)
                 tgt = ev.node.targets[0]
                 received = Lin.of_term(("var", dparam))
